@@ -43,7 +43,7 @@ pub fn find(id: &str) -> Option<&'static PropDef> {
 pub struct RunPlan {
     pub cfg: Cfg,
     pub len: usize,
-    /// C19: bulk shape (entries, insertion order 0 asc / 1 desc / 2 random, churn)
+    /// C19: bulk shape (entries, insertion order 0 asc / 1 desc / 2 random / 3 outward from the middle / 4 inward from both ends / 5 lower half asc then upper half desc, churn)
     pub bulk: Option<(usize, u8, bool)>,
     /// ordered map / set: start the run with a bulk build of this many keys in this pattern
     pub ord_bulk: Option<(i32, u8)>,
@@ -139,7 +139,7 @@ pub fn draw_plan(prop: &str, index: u64, r: &mut Rng, thorough: bool) -> RunPlan
                 c.universe = (2 * n as i32 + 8).max(16);
                 c.key_lo = 0;
                 c.colls = C_TREE;
-                bulk = Some((n, r.below(3) as u8, r.chance(1, 3)));
+                bulk = Some((n, r.below(6) as u8, r.chance(1, 3)));
                 len = n + 2;
             }
             c
@@ -213,7 +213,7 @@ pub fn draw_plan(prop: &str, index: u64, r: &mut Rng, thorough: bool) -> RunPlan
                 return RunPlan { cfg: c, len: draw_len(r, thorough).max(if r.chance(1, 2) { 200 } else { 40 }), bulk: None, ord_bulk: None };
             }
             let n = if r.chance(2, 3) { *r.pick(sizes) } else { r.range(0, if thorough { 300_000 } else { 20_000 }) as usize };
-            let order = r.below(3) as u8;
+            let order = r.below(6) as u8;
             let churn = r.chance(1, 3);
             c.universe = (2 * n as i32 + 8).max(16);
             c.key_lo = 0;
@@ -245,12 +245,12 @@ pub fn draw_plan(prop: &str, index: u64, r: &mut Rng, thorough: bool) -> RunPlan
     if matches!(cfg.world, WorldKind::Map | WorldKind::Set) && cfg.colls == C_TREE && !cfg.has(O_TORN) && index % bulk_every == 11 {
         let n = *r.pick(&[150_000, 300_000, 524_288, 1_048_576 + 11, 1_048_576 + 11]);
         let _ = n;
-        let pat = *r.pick(&[0u8, 1, 2, 2]);
+        let pat = *r.pick(&[0u8, 1, 2, 2, 3, 4]);
         cfg.key_lo = 0;
         cfg.universe = n + 16;
         cfg.cap = *r.pick(&[0usize, 8, 1000]);
         ord_bulk = Some((n, pat));
-        len = 8 + r.below(10) as usize;
+        len = 20 + r.below(10) as usize;
     }
     RunPlan { cfg, len, bulk, ord_bulk }
 }
